@@ -1,6 +1,7 @@
 package fs
 
 import (
+	"os"
 	"testing"
 	"time"
 
@@ -32,4 +33,60 @@ func TestVerifReplay_C10_MoveMissingThenMkdir(t *testing.T) {
 	within(t, 3*time.Second, "Mkdir after Move of a missing path", func() {
 		_ = v.fs.Mkdir("/d", 0o755)
 	})
+}
+
+// Known finding (design-level): a partial read leaves a background Restore goroutine holding the drive and the
+// read-operations lock, so the next mutating call blocks.
+func TestVerifReplay_C10_PartialReadThenCreate(t *testing.T) {
+	v := newVerifFS(t, false, config.PipeConfig{})
+	if _, err := v.fs.Initialize("/", 0o755); err != nil {
+		t.Fatal(err)
+	}
+	f, err := v.fs.Create("/a")
+	if err != nil {
+		t.Fatal(err)
+	}
+	if _, err := f.Write(make([]byte, 200000)); err != nil {
+		t.Fatal(err)
+	}
+	if err := f.Close(); err != nil {
+		t.Fatal(err)
+	}
+	r, err := v.fs.Open("/a")
+	if err != nil {
+		t.Fatal(err)
+	}
+	buf := make([]byte, 10)
+	if _, err := r.Read(buf); err != nil {
+		t.Fatal(err)
+	}
+	within(t, 3*time.Second, "Create after a partial read of another file", func() {
+		g, err := v.fs.Create("/b")
+		if err == nil {
+			g.Close()
+		}
+	})
+}
+
+// Known finding: an error of the background Restore other than a closed pipe panics the whole process.
+func TestVerifReplay_C10_ReadPanicsWhenDriveUnreadable(t *testing.T) {
+	v := newVerifFS(t, false, config.PipeConfig{})
+	if _, err := v.fs.Initialize("/", 0o755); err != nil {
+		t.Fatal(err)
+	}
+	f, err := v.fs.Create("/a")
+	if err != nil {
+		t.Fatal(err)
+	}
+	f.Write([]byte("hello"))
+	f.Close()
+	r, err := v.fs.Open("/a")
+	if err != nil {
+		t.Fatal(err)
+	}
+	os.Remove(v.drive) // the drive disappears: GetReader fails inside the goroutine
+	buf := make([]byte, 5)
+	_, err = r.Read(buf)
+	time.Sleep(500 * time.Millisecond)
+	t.Logf("Read returned %v without crashing the process", err)
 }
